@@ -363,6 +363,14 @@ mut("C07 rescaling helper (&mut [T]) multiplies by the squared factor", [
     (SAM, "\n/// This function returns the feynman parameters", _RS_FN % "&(factor.ref_mul(factor))"),
 ], C07="C07-c", C11="C11-c")
 
+# ---- nested search with `continue 'outer` (labels exported by the driver) ----
+_MS_OLD = "        let is_momentum_spanning = connected_compoenents.iter().any(|component| {\n            self.external_vertices.iter().all(|&v| {\n                component\n                    .contains_edges()\n                    .any(|i| self.topology[i].contains_vertex(v))\n            })\n        });"
+_MS_NEW = "        let is_momentum_spanning = self.some_component_spans(&connected_compoenents);"
+_MS_FN = "    fn some_component_spans(&self, components: &[TropicalSubGraphId]) -> bool {\n        'components: for component in components {\n            for &v in &self.external_vertices {\n                if %scomponent.contains_edges().any(|i| self.topology[i].contains_vertex(v)) {\n                    continue 'components;\n                }\n            }\n            return true;\n        }\n        false\n    }\n\n    /// Get all connected components of a graph, used to compute loop number of possible disconnected graph"
+_MS_ANCHOR = "    /// Get all connected components of a graph, used to compute loop number of possible disconnected graph"
+mut("N: momentum-spanning test as labelled nested loops", [(PRE, _MS_OLD, _MS_NEW), (PRE, _MS_ANCHOR, _MS_FN % "!")], C03=None, C05=None)
+mut("C03 labelled nested loops skip a component when it DOES touch an external", [(PRE, _MS_OLD, _MS_NEW), (PRE, _MS_ANCHOR, _MS_FN % "")], C03="C03-e")
+
 # ---- composite properties (C01, C02): expectations derived mechanically from the owners' rows ----
 # A row that makes a selected owner clause fire must make the composite fire under the restated id; a row on which an owner must stay
 # silent must leave the composite silent (its clauses are a subset of the owners').
